@@ -29,7 +29,8 @@ CLAIMS = {
  "C11": ("model_checking", P1 + "The difference equations of SuperSmoother, RoofingFilter, LaguerreFilter, LaguerreRSI, CyberCycle, TrendFlex, ReFlex, "
          "EhlersFisherTransform and PFE are folded over the complete history in the specification (coefficients are formulas of N evaluated "
          "with exp/cos/sin/ln series in 20-decimal fixed point; rational-coefficient views exactly) and compared at 1e-9; recorded streams at the "
-         "suite's own window lengths (16, 20, 48) validated step by step against the machines, which MC_Model checks against the batch folds.",
+         "suite's own window lengths (16, 20, 48) validated step by step against the machines, which MC_Model checks against the batch folds; "
+         "the same definitions on real runs in units of 2^-70 and 2^60 (exact change of unit, no absolute threshold may take part).",
          "exhaustive model checking of TLA+ difference-equation folds against the implementation's complete behaviour tree", "5 C11"),
  "C13": ("model_checking", P1 + "WelfordRolling mean()/last() (population variance through the square), Drawdown (running maximum of relative declines) "
          "and LnReturn (ln series) against batch definitions over the whole history; integer and decimal positive alphabets; recorded streams "
@@ -38,7 +39,8 @@ CLAIMS = {
  "C04": ("model_checking", P1 + "Four invariants on real observations: interval (answer inside [min,max] of the averaged values), constant "
          "window reproduced, monotone (every single-position raise of the history is compared with its sibling), affine (second real run "
          "over a*x+b); plus the Ema recurrence for default and custom alpha (exact rationals, alphabets through 0 and sign changes) and the "
-         "Alma Gaussian kernel (fixed point) as definitions.",
+         "Alma Gaussian kernel (fixed point) as definitions. Recorded streams of nine decades of dynamic range (large values, then more than "
+         "a window of small ones): the answer, decoded exactly from its bit key, stays inside the interval of the averaged values up to (N+8) ulps.",
          "exhaustive model checking of TLA+ invariants and definitions against the implementation's behaviour trees (one and two runs)", "5 C04"),
  "C12": ("model_checking", "Self-composition as a product of two real behaviour trees: every history x of the scope and its transform a*x+b "
          "(a=2 bit-exact, a=3/2, a=3 b=5/2, b=1e6, a=-1 with Min/Max swapped, units of 2^-120 and 2^100 with exact conversion back) run through the real views; TLC checks the relation table of MC_Rel.tla "
@@ -48,13 +50,14 @@ CLAIMS = {
          "the answer must equal the exact rational combination of the children's definitions at every history (which makes it a function "
          "of the current children values only). Bit-exactness: the children's real answers (stand-alone siblings in the same scope) are decoded "
          "exactly from their bit keys and the combinator must report the correctly rounded IEEE-754 result of that one operation (IEEE.tla); "
-         "Tanh must agree bit for bit with the harness reference child.last().map(f64::tanh).",
+         "including the IEEE sign of an exactly-zero result; Tanh must agree bit for bit with the harness reference child.last().map(f64::tanh).",
          "exhaustive model checking of TLA+ definitions against the implementation's complete behaviour tree", "5 C14"),
  "C01": ("model_checking", "Product over the behaviour tree of three REAL objects per (outer, inner) pair of the catalogue: the composite "
          "B<Tap<A<Probe>>> with the harness' transparent observation points between the crate's views, and the decomposition executed literally "
          "(stand-alone A, its Some-answers fed into stand-alone B). TLC checks in every state: bit-identical answers, exactly one update per "
          "observation point per top-level update carrying the raw value (outer before inner), binary nodes report iff both children do, the "
-         "moving-average slot of PFE/EFT gets exactly one update per derived value.",
+         "moving-average slot of PFE/EFT gets exactly one update per derived value. Outer windows 3 and 1, inner window 2; three-level chains "
+         "(the inner view itself a chain).",
          "exhaustive model checking of composition invariants over tapped real view trees", "5 C01"),
  "C03": ("model_checking", "Self-composition: two real runs with different prefixes (lengths 0..12, magnitudes up to 1e6) followed by every common suffix "
          "over the alphabet; TLC checks that after K(view,N) common values the answers agree unless the specification's hold predicate "
@@ -62,7 +65,9 @@ CLAIMS = {
          "exhaustive model checking of a two-run product (common suffix, different prefixes)", "5 C03"),
  "C07": ("model_checking", P1 + "Range predicates of every bounded view (and the sibling relation Min <= Sma, Alma, newest <= Max at the same "
          "node of the tree) on integer, decimal and positive alphabets, resolved to the logging resolution 1e-12. PFE's own documented formula "
-         "exceeds [-1,1]; that clause is a KNOWN-FINDING (known_findings.json KF1), any other escape is a VIOLATION.",
+         "exceeds [-1,1]; that clause is a KNOWN-FINDING (known_findings.json KF1), any other escape is a VIOLATION. Recorded adversarial streams "
+         "(shapes; nine decades of dynamic range: large volatile values, then constants / monotone runs of tiny steps) in range mode of "
+         "Trace_Stream.tla, with the order clause Min <= Sma, Alma <= Max decided on the exactly decoded answer.",
          "exhaustive model checking of range invariants on real observations", "5 C07"),
  "C08": ("model_checking", P1 + "Readiness table of the specification (Tree.KindReady), never-reverts, finiteness (debug and release builds), and "
          "'delivered nothing => answer unchanged' for every view and two-level chains, on alphabets with zeros, flats and sign changes; "
@@ -86,10 +91,12 @@ CLAIMS = {
  "C17": ("model_checking", "Pipeline P2: TLC generates behaviours of SF.tla / SFTwin.tla (new, update, last, clone, drop on up to 3 slots; for every view "
          "all polling patterns and clone positions over 4 steps, all interleavings to depth 5 on 2 slots, simulation to depth 22), the harness "
          "replays them on the real crate, Trace_SF.tla re-executes each on the abstract state (configuration, history) and requires every "
-         "answer to be a function of that pair.",
+         "answer to be a function of that pair; every simulated behaviour is executed twice (own thread in generation order; another process, "
+         "one shared thread, reverse order) and the two recordings must be identical; same kind with different parameters side by side.",
          "TLC-generated behaviours replayed into the implementation and validated against the TLA+ top-level specification", "5 C17"),
  "C18": ("exploration", "Trace validation (P3): live heap bytes attributable to each view (counting allocator) at L0, 4 L0, 16 L0 updates must not grow "
-         "and must stay under the specification's CellBound(view, N) (Trace_Exp.tla).",
+         "and must stay under the specification's CellBound(view, N) (Trace_Exp.tla); every view over Echo and over inner views that withhold "
+         "values at the start or for ever, periodic / constant / zero / rising / falling inputs, N in 1..33 (64).",
          "trace validation of recorded memory measurements against a TLA+ cell bound", "5 C18"),
 }
 
